@@ -65,6 +65,10 @@ def gen_gaddmul(rng):
     q5 = [coeff_value(rng) for _ in range(5)]
     pi = coeff_value(rng) if rng.coin(1, 3) else None
     a, b, d = p.w(boundary_value(rng)), p.w(boundary_value(rng)), p.w(boundary_value(rng))
+    k = rng.below(8)
+    if k < 2: b = a; p.tags.append("shared-handles")
+    elif k == 2: d = a; p.tags.append("shared-handles")
+    elif k == 3: b = a; d = a; p.tags.append("shared-handles")
     o = p.gadd(q5, pi, a, b, d, name)
     if rng.coin(1, 2):
         p.setw(o, (p.val(o) + 1 + rng.below(7)) % R); p.unsat(); p.tags.append("forged-output")
@@ -113,6 +117,10 @@ def gen_select(rng):
     p = Prog()
     bit = p.w(rng.choice([0, 1, 0, 1, 2, boundary_value(rng)]))
     a, b = p.w(boundary_value(rng)), p.w(boundary_value(rng))
+    k = rng.below(8)
+    if k == 0: b = a
+    elif k == 1: a = bit
+    elif k == 2: a = bit; b = bit
     k = rng.below(3)
     if k == 0:
         p.tags = ["component_select"]; o = p.sel(bit, a, b)
